@@ -36,7 +36,12 @@ package main
 // re-based locations (CopyPath/Splice.v); the bloom filters of row groups
 // written column-wise have the size of the model's sizing rule for the declared
 // (exact / upper bound) and delivered value counts of the source chunks
-// (CopyPath/Filters.v).
+// (CopyPath/Filters.v).  The destination's BloomFilterCompression is part of the
+// options (dst kinds bloomcodec*): the model's c_dst_bloom_codec; the header of
+// every output filter is compressed exactly when configured so.  When the
+// destination declares no order of its own, the sorting_columns each output
+// row group records (taken from the row group given to WriteRowGroup) must be
+// true of the rows it holds (predicates.go sortingNotTrue).
 
 import (
 	"bytes"
@@ -54,6 +59,7 @@ import (
 	"unsafe"
 
 	"github.com/parquet-go/parquet-go"
+	"github.com/parquet-go/parquet-go/compress"
 	"github.com/parquet-go/parquet-go/encoding/thrift"
 	"github.com/parquet-go/parquet-go/format"
 
@@ -76,7 +82,9 @@ type c11Case struct {
 	// Pending rows are written with WriteRows and still buffered when WriteRowGroup is called
 	// (they are the first rows the source delivers, written a second time)
 	Pending int `json:"pending,omitempty"`
-	Card    int `json:"card,omitempty"`  // shape dict: number of distinct values of each column
+	// SrcBloom: "" = the source has bloom filters when its generated options say so, "on" / "off" = it has / has not
+	SrcBloom string `json:"src_bloom,omitempty"`
+	Card     int    `json:"card,omitempty"` // shape dict: number of distinct values of each column
 	Fault   int `json:"fault,omitempty"` // fault scenario: 1 + the column whose page index cannot be read
 	FaultOI bool `json:"fault_oi,omitempty"` // the offset index (else the column index) is unreadable
 	After   string `json:"after,omitempty"` // fault scenario: what is written after the failed call: rows | rowgroup
@@ -84,8 +92,9 @@ type c11Case struct {
 }
 
 var srcKinds = []string{"file", "buffer", "genericbuffer", "multi", "multi-mixed", "multi-wrapped", "convert-add", "convert-first", "convert-drop", "foreign", "foreign-plain", "foreign-embed"}
-var sortedSrcKinds = []string{"file", "merge-disjoint", "merge-overlap", "merge-dedup", "dedup", "merge-nosort", "merge-multi", "multi", "multi-wrapped", "foreign"}
-var dstKinds = []string{"same", "codec", "nocodec", "version", "encoding", "colenc", "dictmax", "dictmore", "dictless", "stats", "bloom", "bloomsize", "bloomoff", "maxrows", "sorting", "encrypt", "pagebuf", "indexlimit"}
+var sortedSrcKinds = []string{"file", "merge-disjoint", "merge-overlap", "merge-dedup", "dedup", "merge-nosort", "merge-multi", "multi", "multi-wrapped", "foreign",
+	"convert-dropkey", "convert-dropsecond", "convert-sorted-add", "convert-sorted-buffer"}
+var dstKinds = []string{"same", "codec", "nocodec", "version", "encoding", "colenc", "dictmax", "dictmore", "dictless", "stats", "bloom", "bloomsize", "bloomoff", "bloomcodec", "bloomcodec-snappy", "maxrows", "sorting", "encrypt", "pagebuf", "indexlimit"}
 
 // dstOpts: the writer options of a destination (or source) file.
 type dstOpts struct {
@@ -94,7 +103,18 @@ type dstOpts struct {
 	Sorting   bool `json:"sorting"`
 	Encrypt   bool `json:"encrypt"`
 	ColEnc    bool `json:"col_enc"` // the first leaf gets another encoding in the schema
+	// BloomCodec: BloomFilterCompression of the writer ("" = not set: filters are stored uncompressed)
+	BloomCodec string `json:"bloom_codec,omitempty"`
+	// Sort2: a second sorting column (top-level leaf, ascending) declared after the sort key
+	Sort2 string `json:"sort2,omitempty"`
 }
+
+// bloomCodecs: the compression of bloom filters a writer may be configured
+// with, and the thrift code the model knows it by.
+var bloomCodecs = map[string]struct {
+	codec compress.Codec
+	code  int
+}{"snappy": {&parquet.Snappy, 1}, "gzip": {&parquet.Gzip, 2}, "zstd": {&parquet.Zstd, 6}}
 
 var footerKey = []byte("0123456789abcdef")
 
@@ -129,8 +149,15 @@ func (o dstOpts) writerOptions(root *gen.Node, sortKey []string) []parquet.Write
 		}
 		opts = append(opts, parquet.BloomFilters(filters...))
 	}
+	if bc, ok := bloomCodecs[o.BloomCodec]; ok {
+		opts = append(opts, parquet.BloomFilterCompression(bc.codec))
+	}
 	if o.Sorting && len(sortKey) > 0 {
-		opts = append(opts, parquet.SortingWriterConfig(parquet.SortingColumns(parquet.Ascending(sortKey...))))
+		cols := []parquet.SortingColumn{parquet.Ascending(sortKey...)}
+		if o.Sort2 != "" {
+			cols = append(cols, parquet.Ascending(o.Sort2))
+		}
+		opts = append(opts, parquet.SortingWriterConfig(parquet.SortingColumns(cols...)))
 	}
 	if o.Encrypt {
 		opts = append(opts, parquet.WithEncryption(&parquet.EncryptionConfig{FooterKey: footerKey, EncryptedFooter: true}))
@@ -238,6 +265,19 @@ func dstFor(kind string, src dstOpts, maxSrcRows int64) dstOpts {
 			d.BloomBits = 10
 		} else {
 			d.BloomBits = 16
+		}
+	case "bloomcodec", "bloomcodec-snappy":
+		// the filters of the destination are stored compressed (those of the source are not, and
+		// the reverse); the pages keep the codec of the source
+		if d.BloomBits == 0 {
+			d.BloomBits = 10
+		}
+		if d.BloomCodec != "" {
+			d.BloomCodec = ""
+		} else if kind == "bloomcodec" {
+			d.BloomCodec = "gzip"
+		} else {
+			d.BloomCodec = "snappy"
 		}
 	case "maxrows":
 		d.MaxRows = maxSrcRows/2 + 1
@@ -619,6 +659,12 @@ func build(cs c11Case) (*built, error) {
 	default:
 		return nil, fmt.Errorf("shape %q", cs.Shape)
 	}
+	switch cs.SrcBloom {
+	case "on":
+		b.srcOpts.BloomBits = 10
+	case "off":
+		b.srcOpts.BloomBits = 0
+	}
 	b.root = b.srcRoot
 	parts := cs.Parts
 	if parts < 2 {
@@ -679,6 +725,72 @@ func build(cs c11Case) (*built, error) {
 		case "file":
 			inputs = mkInputs([][]int64{seqKeys(0, int64(n), 1)})
 			b.mk = inputs
+		case "convert-dropkey", "convert-dropsecond", "convert-sorted-add", "convert-sorted-buffer":
+			// ConvertRowGroup over row groups sorted by (k, v) - distinct increasing keys, so that
+			// the rows are in no order of v alone - to a target without the leading sorting column,
+			// without the second one, or with all of them and one column more: whatever the wrapper
+			// declares is what WriteRowGroup records when the writer declares no order of its own
+			b.srcOpts.Sort2 = "v"
+			var inner []parquet.RowGroup
+			var ierr error
+			var bufParts [][]parquet.Row
+			if cs.Src == "convert-sorted-buffer" {
+				var rows []parquet.Row
+				for _, k := range seqKeys(0, int64(n), 1) {
+					rows = append(rows, gen.Shred(b.srcRoot, sortedRow(k, cs.Gen.Seed)))
+				}
+				bufParts = splitRows(rows, parts)
+				for _, part := range bufParts {
+					if int64(len(part)) > b.maxRows {
+						b.maxRows = int64(len(part))
+					}
+				}
+			} else {
+				var ks [][]int64
+				for p := 0; p < parts; p++ {
+					ks = append(ks, seqKeys(int64(p)*(per+5), per, 1))
+				}
+				inner, ierr = mkInputs(ks)()
+			}
+			// the destination declares no order of its own
+			b.srcOpts.Sorting, b.srcOpts.Sort2, b.sortKey = false, "", nil
+			target := cloneRoot(b.srcRoot, false)
+			switch cs.Src {
+			case "convert-dropkey", "convert-sorted-buffer":
+				target.Fields = target.Fields[1:]
+			case "convert-dropsecond":
+				target.Fields = target.Fields[:2]
+			default:
+				target.Fields = append(target.Fields, &gen.Node{Name: "zz_added", Rep: gen.Opt, Leaf: "int64"})
+			}
+			b.root = target
+			b.mk = func() ([]parquet.RowGroup, error) {
+				if ierr != nil {
+					return nil, ierr
+				}
+				conv, cerr := parquet.Convert(schemaOf(target), schemaOf(b.srcRoot))
+				if cerr != nil {
+					return nil, fmt.Errorf("skip: Convert: %w", cerr)
+				}
+				members := inner
+				for _, part := range bufParts {
+					buf := parquet.NewBuffer(schemaOf(b.srcRoot), parquet.SortingRowGroupConfig(parquet.SortingColumns(parquet.Ascending("k"), parquet.Ascending("v"))))
+					cl := make([]parquet.Row, len(part))
+					for i := range part {
+						cl[i] = part[i].Clone()
+					}
+					if _, err := buf.WriteRows(cl); err != nil {
+						return nil, err
+					}
+					members = append(members, buf)
+				}
+				var out []parquet.RowGroup
+				for _, rg := range members {
+					out = append(out, parquet.ConvertRowGroup(rg, conv))
+				}
+				return out, nil
+			}
+			b.wantKind = "C"
 		case "merge-disjoint":
 			var ks [][]int64
 			for p := 0; p < parts; p++ {
@@ -1041,6 +1153,13 @@ func build(cs c11Case) (*built, error) {
 	return b, nil
 }
 
+// lyingSource: source kinds in which a type of the HARNESS reverses the rows of a row group of
+// the library and inherits its SortingColumns() (embedding types): what such a row group
+// declares is not the library's doing.
+func lyingSource(src string) bool {
+	return src == "foreign-embed" || src == "multi-wrapped"
+}
+
 // ---- attribute vectors ----
 
 func field(v reflect.Value, name string) reflect.Value {
@@ -1233,7 +1352,11 @@ func colToken(b *built, rg parquet.RowGroup, i int, chunk parquet.ColumnChunk, d
 	} else {
 		styp, scodec = d.typ, 0
 	}
-	return fmt.Sprintf("%s:%s:%x:%x:%x:%x:N:%x:%x:%s:%d:%x:%x:%x:%x", class, flags, styp, d.typ, scodec, d.codec, numBytes, filterSize, stats, d.pageType, d.encoding, dst.DictMaxBytes, dictSize, dictFilterSize)
+	bloomCodec := "N"
+	if bc, ok := bloomCodecs[dst.BloomCodec]; ok {
+		bloomCodec = fmt.Sprintf("%x", bc.code)
+	}
+	return fmt.Sprintf("%s:%s:%x:%x:%x:%x:%s:%x:%x:%s:%d:%x:%x:%x:%x", class, flags, styp, d.typ, scodec, d.codec, bloomCodec, numBytes, filterSize, stats, d.pageType, d.encoding, dst.DictMaxBytes, dictSize, dictFilterSize)
 }
 
 // treeToken renders rg and its segments in preorder; returns the nesting depth.
@@ -1845,6 +1968,15 @@ func check(c *core.Ctx, cs c11Case) (bucket string, nontrivial bool) {
 		if to > len(want) {
 			break
 		}
+		// the order the row group records: when the writer declares none of its own, WriteRowGroup
+		// records the sorting columns of the row group it is given (the reference, written row by
+		// row, records none): what is recorded must be true of the rows written
+		if !(dst.Sorting && len(sortKey) > 0) && !lyingSource(cs.Src) {
+			if what := sortingNotTrue(schemaOf(dstRoot), rgm.SortingColumns, want[from:to]); what != "" {
+				violation(c, "recorded-sorting-columns-not-true", fmt.Sprintf("%s: output row group %d (rows %d..%d) %s (paths %v)", bucket, g, from, to-1, what, implPaths), cs)
+				ok = false
+			}
+		}
 		for ci, ch := range rgm.Columns {
 			if ci >= len(dcols) {
 				break
@@ -1949,6 +2081,15 @@ func check(c *core.Ctx, cs c11Case) (bucket string, nontrivial bool) {
 								}
 							}
 						}
+					}
+				}
+			}
+			// the representation of the filter: compressed exactly when the destination is configured so
+			if dst.BloomBits > 0 && m.BloomFilterOffset != 0 && !dst.Encrypt {
+				if oh, _, oerr := bloomRaw(outBuf.Bytes(), &m); oerr == nil {
+					if un := strings.Contains(oh, "uncompressed=true"); un != (dst.BloomCodec == "") {
+						violation(c, "bloom-filter-compression-not-honoured:"+pathOf(implPaths), fmt.Sprintf("%s: bloom filter header {%s}, the destination is configured with BloomFilterCompression %q (paths %v)", where, oh, dst.BloomCodec, implPaths), cs)
+						ok = false
 					}
 				}
 			}
@@ -2138,6 +2279,13 @@ func check(c *core.Ctx, cs c11Case) (bucket string, nontrivial bool) {
 							_, bits, err := bloomRaw(outBuf.Bytes(), &m)
 							if err != nil {
 								continue
+							}
+							if bc, ok := bloomCodecs[dst.BloomCodec]; ok {
+								// the sizing rule speaks of the bit set: the stored bytes, decompressed
+								if bits, err = bc.codec.Decode(nil, bits); err != nil {
+									violation(c, "bloom-filter-unreadable", fmt.Sprintf("%s: output row group %d column %d: the bloom filter does not decompress with the configured codec %s: %v", bucket, g, ci, dst.BloomCodec, err), cs)
+									return bucket, true
+								}
 							}
 							if ans := c.Ask(req); ans != fmt.Sprintf("%x", len(bits)) {
 								mismatch(c, "corr:C11.filter-size", fmt.Sprintf("output row group %d column %d: %s", g, ci, req), fmt.Sprintf("%x", len(bits)), ans, cs)
@@ -2537,7 +2685,7 @@ func tmark(i int) {
 }
 
 func run(c *core.Ctx) {
-	c.Res.Rule = "source row groups {file-backed (generated schemas/options/Write-Flush histories), Buffer, GenericBuffer, MultiRowGroup of files and buffers, MergeRowGroups of sorted inputs (disjoint, overlapping, partially overlapping with range views, with and without DropDuplicatedRows, unsorted), the deduplicating wrapper, ConvertRowGroup to a schema with an added/dropped column, a foreign RowGroup implementation reversing the rows} x destination options {equal to the source's, or differing in one of codec, page version, default encoding, column encoding, dictionary limit (none / larger / smaller), page statistics, bloom filter present/absent/size, MaxRowsPerRowGroup, sorting, encryption, page buffer size, column index size limit} x switches; each written with WriteRowGroup and, row by row, into a reference writer. Added shapes: dictionary columns of every kind (byte array, 32/64-bit, fixed length, double, below a repeated node) with 2..1000 distinct values arriving through the chunk or cycling, source DictionaryMaxBytes in {none, 8, 64, 300, 2000} (chunks with RLE_DICTIONARY pages followed by PLAIN pages) x destination limit larger / none / smaller, bloom filters on and off; GEOMETRY / GEOGRAPHY columns (optional, required, repeated; WKB points, line strings, polygons, multi-points in XY/XYZ/XYM/XYZM, empty geometries, bytes that are not WKB). Added sources: merges whose segments mix whole row groups with row-range views (4 600..7 300 rows, several pages per chunk, bloom filters on the repeated and the optional leaf among the destinations), merges of concatenations (a member without rows first or last, nested, the other input overlapping / above / below / inside), MultiRowGroup over foreign, embedding, deduplicating and merged members, types embedding *Buffer / *GenericBuffer / *FileRowGroup that reverse Rows(); shape edge: chunk bounds at the edge of the type (empty strings as minimum and as both bounds, NaNs, signed zeros, infinities, all-null, all-zero fixed length) x every source kind. Chunk statistics are compared field by field (set / unset, bytes, counts; a zero FLOAT/DOUBLE bound without its sign) with the row path's, for the output's own row groups. Histories: 1..40 rows written with WriteRows and still buffered when WriteRowGroup is called (every source kind, segmented ones whose first batch packs several segments included); a call of WriteRowGroup that fails while the verbatim copy is staged (source opened with SkipPageIndex through a ReaderAt that refuses the column index or the offset index of one column) or while the values are written column by column (the ReaderAt refuses the pages of one column: one row group into another codec, or two segments packed), followed by rows written one by one or a healthy row group. Non-trivial = at least 2 rows (fault histories: the call failed while staging); distinct by the JSON of the case."
+	c.Res.Rule = "source row groups {file-backed (generated schemas/options/Write-Flush histories), Buffer, GenericBuffer, MultiRowGroup of files and buffers, MergeRowGroups of sorted inputs (disjoint, overlapping, partially overlapping with range views, with and without DropDuplicatedRows, unsorted), the deduplicating wrapper, ConvertRowGroup to a schema with an added/dropped column, a foreign RowGroup implementation reversing the rows} x destination options {equal to the source's, or differing in one of codec, page version, default encoding, column encoding, dictionary limit (none / larger / smaller), page statistics, bloom filter present/absent/size, MaxRowsPerRowGroup, sorting, encryption, page buffer size, column index size limit} x switches; each written with WriteRowGroup and, row by row, into a reference writer. Added shapes: dictionary columns of every kind (byte array, 32/64-bit, fixed length, double, below a repeated node) with 2..1000 distinct values arriving through the chunk or cycling, source DictionaryMaxBytes in {none, 8, 64, 300, 2000} (chunks with RLE_DICTIONARY pages followed by PLAIN pages) x destination limit larger / none / smaller, bloom filters on and off; GEOMETRY / GEOGRAPHY columns (optional, required, repeated; WKB points, line strings, polygons, multi-points in XY/XYZ/XYM/XYZM, empty geometries, bytes that are not WKB). Added sources: merges whose segments mix whole row groups with row-range views (4 600..7 300 rows, several pages per chunk, bloom filters on the repeated and the optional leaf among the destinations), merges of concatenations (a member without rows first or last, nested, the other input overlapping / above / below / inside), MultiRowGroup over foreign, embedding, deduplicating and merged members, types embedding *Buffer / *GenericBuffer / *FileRowGroup that reverse Rows(); shape edge: chunk bounds at the edge of the type (empty strings as minimum and as both bounds, NaNs, signed zeros, infinities, all-null, all-zero fixed length) x every source kind. Chunk statistics are compared field by field (set / unset, bytes, counts; a zero FLOAT/DOUBLE bound without its sign) with the row path's, for the output's own row groups. Histories: 1..40 rows written with WriteRows and still buffered when WriteRowGroup is called (every source kind, segmented ones whose first batch packs several segments included); a call of WriteRowGroup that fails while the verbatim copy is staged (source opened with SkipPageIndex through a ReaderAt that refuses the column index or the offset index of one column) or while the values are written column by column (the ReaderAt refuses the pages of one column: one row group into another codec, or two segments packed), followed by rows written one by one or a healthy row group. Destination BloomFilterCompression (gzip / snappy / not set) x page codec {none, snappy, gzip, zstd} x sources with and without filters (file, multi, buffer): the header of every filter of the output says compressed exactly when the destination is configured so, header and bytes equal the row path's, the sizing rule holds of the decompressed bit set. Sorted shape, added sources: ConvertRowGroup over files / Buffers sorted by (k, v) with distinct keys to a target without k, without v, or with one column more; on every case whose destination declares no order of its own the sorting_columns recorded in each output row group must be true of its rows. Non-trivial = at least 2 rows (fault histories: the call failed while staging); distinct by the JSON of the case."
 	codecs := []string{"none", "snappy", "gzip", "zstd"}
 
 	// corpus first: the defect repaired by bdd71f3 (repeated column, rows of 100+ values,
@@ -2564,6 +2712,21 @@ func run(c *core.Ctx) {
 	for i, src := range append(append([]string(nil), sortedSrcKinds...), "merge-dedup-disjoint") {
 		for _, dstk := range []string{"same", "codec", "maxrows"} {
 			runCase(c, c11Case{Gen: gen.Case{Seed: int64(700 + i), NRows: 90, MaxDepth: 1, MaxFields: 1, Codecs: codecs}, Shape: "sorted", Src: src, Dst: dstk, Parts: 3}, src == "dedup" && dstk == "same")
+		}
+	}
+	// the representation of the destination's bloom filters (BloomFilterCompression) x the codec of the
+	// pages x filters in the source or not: a filter is carried over verbatim only into a destination
+	// that stores its filters uncompressed, whatever the codec of its pages
+	for ci, codec := range codecs {
+		for bi, sb := range []string{"on", "off"} {
+			for di, dstk := range []string{"bloomcodec", "bloomcodec-snappy"} {
+				for si, src := range []string{"file", "multi", "buffer"} {
+					if src != "file" && (sb == "off" || di == 1) {
+						continue
+					}
+					runCase(c, c11Case{Gen: gen.Case{Seed: c.Seed*131 + int64(2000+ci*16+bi*8+di*4+si), NRows: 70, MaxDepth: 2, MaxFields: 3, Codecs: []string{codec}, NullBias: 2}, Src: src, Dst: dstk, SrcBloom: sb, Parts: 2}, false)
+				}
+			}
 		}
 	}
 	// partially overlapping long inputs: range views
